@@ -1633,6 +1633,10 @@ pub fn run(ctx: &mut Ctx) {
     let mut produced = 0u64;
     let mut mutator_names = String::new();
     let signer = if crypto { Some(crate::keys::PoolSigner::new(3)) } else { None };
+
+    // ---- 3b. generated RFC 3779 values at the ends of the number spaces
+    run_generated_resources(ctx, &mut mon, &seeds, signer.as_ref());
+    mon.flush(ctx);
     let resign_one_in: u64 = if ctx.tier == Tier::Thorough { 16 } else { 8 };
     let mut resigned = 0u64;
     while produced < mutants {
@@ -1789,6 +1793,211 @@ pub fn run(ctx: &mut Ctx) {
     mon.flush(ctx);
 }
 
+//------------ generated resource values --------------------------------------
+//
+// Byte-level mutation of captured objects practically never produces the
+// values at the ends of a number space (a *range* whose upper bound is the
+// last address of the family is written with an empty BIT STRING; the first
+// address likewise; AS ranges up to 2^32-1). The decoders take them, and the
+// accessors of what they return (range-to-prefix decomposition, counts,
+// displays, set algebra against the issuer) are exactly where arithmetic at
+// the edges goes wrong. So RFC 3779 values are also *generated*: block lists
+// from the boundary-dense endpoint pool of the C03 generators, written by
+// the independent DER writer — on their own through the resource entry
+// points, and planted into the extensions of library-built certificates and
+// signed objects which are then re-signed with the pool keys so that the
+// accessor sweep of the *decoded object* (and validation against the fixed
+// issuer) runs over them.
+
+const OID_IP_RES: [&[u8]; 2] = [&[0x2B, 6, 1, 5, 5, 7, 1, 7], &[0x2B, 6, 1, 5, 5, 7, 1, 28]];
+const OID_AS_RES: [&[u8]; 2] = [&[0x2B, 6, 1, 5, 5, 7, 1, 8], &[0x2B, 6, 1, 5, 5, 7, 1, 29]];
+
+/// One generated `SEQUENCE OF IPAddressOrRange` / `SEQUENCE OF ASIdOrRange`
+/// and the class of its block list.
+fn gen_blocks(fl: crate::c03_gen::Flavour, rng: &mut Rng) -> (Vec<u8>, &'static str) {
+    use crate::c03_gen::Flavour;
+    let reversed = rng.chance(1, 8);
+    let (mut blocks, _) = crate::c03_ip::hostile_list(fl, rng, reversed);
+    let shape = if reversed {
+        "reversed"
+    } else if rng.chance(2, 3) {
+        // what a correct encoder writes: sorted, merged
+        let m = fl.model(&blocks);
+        blocks = m.iv.iter().map(|(a, b)| if fl == Flavour::V4 { (a >> 96, b >> 96) } else { (*a, *b) }).collect();
+        "canonical"
+    } else {
+        "raw"
+    };
+    let as_range = rng.chance(1, 6);
+    let der = if fl == Flavour::As { crate::c03::as_der(&blocks, as_range) } else { crate::c03_ip::ip_der(fl, &blocks, as_range) };
+    (der, shape)
+}
+
+/// `IPAddrBlocks` (the extension value).
+fn gen_ip_ext(rng: &mut Rng) -> (Vec<u8>, String) {
+    use crate::c03_gen::Flavour;
+    use crate::der;
+    let fams: &[Flavour] = match rng.below(8) {
+        0 | 1 => &[Flavour::V4],
+        2 | 3 => &[Flavour::V6],
+        4..=6 => &[Flavour::V4, Flavour::V6],
+        _ => &[Flavour::V6, Flavour::V4],
+    };
+    let mut parts = Vec::new();
+    let mut label = String::new();
+    for fl in fams {
+        let afi: &[u8] = if *fl == Flavour::V4 { &[0, 1] } else { &[0, 2] };
+        let (choice, shape) = if rng.chance(1, 7) { (der::null(), "inherit") } else { gen_blocks(*fl, rng) };
+        parts.push(der::seq(&[&der::octets(afi), &choice]));
+        label.push_str(&format!("{}:{} ", fl.name(), shape));
+    }
+    (der::seq_of(&parts), label.trim_end().replace(' ', ","))
+}
+
+/// `ASIdentifiers` (the extension value).
+fn gen_as_ext(rng: &mut Rng) -> (Vec<u8>, String) {
+    use crate::der;
+    let (choice, shape) = if rng.chance(1, 7) { (der::null(), "inherit") } else { gen_blocks(crate::c03_gen::Flavour::As, rng) };
+    (der::seq(&[&der::tlv(0xA0, &choice)]), shape.to_string())
+}
+
+/// A generated value for the resource entry points: (bytes, home entry points, mutator label).
+fn gen_resource_value(rng: &mut Rng) -> (Vec<u8>, [Ep; 2], String) {
+    use crate::c03_gen::Flavour;
+    const IP: [Ep; 2] = [Ep::IpResDer, Ep::IpResBer];
+    const AS: [Ep; 2] = [Ep::AsResDer, Ep::AsResBer];
+    match rng.below(6) {
+        0 => {
+            let (d, s) = gen_blocks(Flavour::V4, rng);
+            (d, IP, format!("gen:v4-blocks:{}", s))
+        }
+        1 => {
+            let (d, s) = gen_blocks(Flavour::V6, rng);
+            (d, IP, format!("gen:v6-blocks:{}", s))
+        }
+        2 | 3 => {
+            let (d, s) = gen_ip_ext(rng);
+            (d, IP, format!("gen:ip-ext:{}", s))
+        }
+        4 => {
+            let (d, s) = gen_blocks(Flavour::As, rng);
+            (d, AS, format!("gen:as-blocks:{}", s))
+        }
+        _ => {
+            let (d, s) = gen_as_ext(rng);
+            (d, AS, format!("gen:as-ext:{}", s))
+        }
+    }
+}
+
+/// Replaces the value of every extension named by one of `oids` in the
+/// forest with `content`. Returns whether anything was replaced.
+fn plant_extension(f: &mut Vec<T>, oids: &[&[u8]], content: &[u8]) -> bool {
+    let mut hits = m::find_all(f, &|t| t.tag == 0x06 && matches!(&t.body, m::Body::Leaf(b) if oids.iter().any(|o| *o == b.as_slice())));
+    hits.reverse(); // later nodes first: replacing a value renumbers what follows it
+    let mut done = false;
+    for i in hits {
+        // Extension ::= SEQUENCE { extnID, critical BOOLEAN OPTIONAL, extnValue OCTET STRING }
+        for k in 1..=2 {
+            let Some(t) = m::node_mut(f, i + k) else { break };
+            if t.tag == 0x04 {
+                t.len = m::LenForm::Min;
+                t.body = match m::parse(content) {
+                    Some(kids) => m::Body::Wrap(Vec::new(), kids),
+                    None => m::Body::Leaf(content.to_vec()),
+                };
+                done = true;
+                break;
+            }
+            if t.tag != 0x01 {
+                break;
+            }
+        }
+    }
+    done
+}
+
+/// The generated-values stage (native and ASan).
+fn run_generated_resources(ctx: &mut Ctx, mon: &mut Mon, seeds: &[Seed], signer: Option<&crate::keys::PoolSigner>) {
+    let standalone = ctx.stage_budget((64_000, 800_000), 16_000, 0, 0);
+    let mut rng = ctx.rng("gen-resources");
+    let mut st_accepted = 0u64;
+    for _ in 0..standalone {
+        let (data, home, label) = gen_resource_value(&mut rng);
+        for ep in home {
+            if mon.eval(ctx, &Case { ep, data: &data, mutator: &label, seed: "generated" }).map(|o| o.ok).unwrap_or(false) {
+                st_accepted += 1;
+            }
+        }
+    }
+    ctx.obs("generated_resource_values", standalone);
+    ctx.obs("generated_resource_values:accepted(evaluations)", st_accepted);
+    // planted into signed objects
+    let Some(pool) = signer else { return };
+    let is_res = |t: &T| t.tag == 0x06 && matches!(&t.body, m::Body::Leaf(b) if OID_IP_RES.iter().chain(OID_AS_RES.iter()).any(|o| *o == b.as_slice()));
+    let hosts: Vec<&Seed> = seeds
+        .iter()
+        .filter(|s| s.plan != Plan::None && s.data.len() <= 20_000 && !s.home.is_empty())
+        .filter(|s| s.forest.as_ref().map(|f| !m::find_all(f, &is_res).is_empty()).unwrap_or(false))
+        .collect();
+    ctx.obs_max("seeds_with_resource_extensions_and_known_keys", hosts.len() as u64);
+    if hosts.is_empty() {
+        return;
+    }
+    let planted = ctx.stage_budget((6_400, 80_000), 1_600, 0, 0);
+    let mut done = 0u64;
+    let (mut accepted, mut validated) = (0u64, 0u64);
+    for _ in 0..planted {
+        let s = hosts[rng.usize_below(hosts.len())];
+        let mut f = s.forest.clone().unwrap();
+        let mut label = String::from("gen-planted");
+        let which = rng.below(3);
+        let mut any = false;
+        if which != 1 {
+            let (d, l) = gen_ip_ext(&mut rng);
+            if plant_extension(&mut f, &OID_IP_RES, &d) {
+                any = true;
+                label.push_str(&format!(":ip[{}]", l));
+            }
+        }
+        if which != 0 {
+            let (d, l) = gen_as_ext(&mut rng);
+            if plant_extension(&mut f, &OID_AS_RES, &d) {
+                any = true;
+                label.push_str(&format!(":as[{}]", l));
+            }
+        }
+        if !any {
+            continue;
+        }
+        let sha = |d: &[u8]| crate::keys::sha256(d);
+        match s.plan {
+            Plan::X509(k) => {
+                m::resign_x509(&mut f, &[0], &|d| pool.key(k).sign_raw(d));
+            }
+            Plan::Cms { ee, issuer } => {
+                m::resign_cms(&mut f, &sha, &|d| pool.key(ee).sign_raw(d), &|d| pool.key(issuer).sign_raw(d));
+            }
+            Plan::None => {}
+        }
+        let data = m::to_bytes(&f);
+        done += 1;
+        for ep in &s.home {
+            if let Some(out) = mon.eval(ctx, &Case { ep: *ep, data: &data, mutator: &label, seed: &s.name }) {
+                if out.ok {
+                    accepted += 1;
+                }
+                if out.validated {
+                    validated += 1;
+                }
+            }
+        }
+    }
+    ctx.obs("generated_resources_planted_and_resigned", done);
+    ctx.obs("generated_resources_planted:accepted_by_the_object_decoder", accepted);
+    ctx.obs("generated_resources_planted:validated_against_fixed_issuer", validated);
+}
+
 //------------ Miri ----------------------------------------------------------
 
 /// Miri interprets roughly 10^4 times slower than native code here (seconds
@@ -1915,6 +2124,15 @@ fn run_miri(ctx: &mut Ctx, mon: &mut Mon) {
         mon.eval(ctx, &Case { ep, data: &data, mutator: &label, seed: &s.name });
     }
     ctx.obs("mutants_generated", mutants);
+    // generated resource values (see `run_generated_resources`): pure parsing and arithmetic
+    let generated = ctx.stage_budget((0, 0), 0, 96, 0);
+    let mut rng = ctx.rng("gen-resources-miri");
+    for _ in 0..generated {
+        let (data, home, label) = gen_resource_value(&mut rng);
+        let ep = *rng.pick(&home);
+        mon.eval(ctx, &Case { ep, data: &data, mutator: &label, seed: "generated" });
+    }
+    ctx.obs("generated_resource_values", generated);
 }
 
 //------------ literal cases --------------------------------------------------
@@ -1961,6 +2179,22 @@ fn write_corpus(ctx: &mut Ctx, dir: &str, crypto: bool, fixed: &Fixed) {
                     if std::fs::write(file, &bytes).is_ok() {
                         written += 1;
                     }
+                }
+            }
+        }
+    }
+    // generated resource values for the resources target
+    {
+        let gdir = PathBuf::from(dir).join("c04_resources");
+        let _ = std::fs::create_dir_all(&gdir);
+        for _ in 0..600 {
+            let (data, home, _) = gen_resource_value(&mut rng);
+            for ep in home {
+                let Some(sel) = FUZZ_RESOURCES.iter().position(|e| *e == ep) else { continue };
+                let mut bytes = vec![sel as u8];
+                bytes.extend_from_slice(&data);
+                if std::fs::write(gdir.join(format!("{:016x}", fnv64(&bytes))), &bytes).is_ok() {
+                    written += 1;
                 }
             }
         }
